@@ -107,7 +107,10 @@ def main():
             meta = json.load(open(os.path.join(path, "meta.json")))
             if kind == "seeded":
                 # a confirmed sub-agent seed: expected to be caught by the checks recorded in its detection matrix
-                meta["expect"] = {p: True for p in (meta.get("caught_by") or {})}
+                # (its own property, plus neighbours listed by hand in expect_also; the other entries of caught_by are conservative
+                # reports of the panic engine on the seed's new code and are not required)
+                cb = meta.get("caught_by") or {}
+                meta["expect"] = {p: True for p in [meta["breaks"]] + list(meta.get("expect_also", [])) if p in cb}
             if k == "mutant" and not meta.get("expect"):
                 continue
             if a.props:
